@@ -104,7 +104,7 @@ type convRef struct {
 var Cat *Catalogue
 
 // Families of the private mode, in catalogue order.
-var PrivateFams = []string{"decode", "encode", "reencode", "redecode", "decodebad", "sec", "fn", "method", "accessors", "roundtrip", "hist"}
+var PrivateFams = []string{"decode", "encode", "reencode", "redecode", "decodebad", "sec", "fn", "method", "accessors", "chain", "roundtrip", "hist"}
 
 func BuildCatalogue() *Catalogue {
 	c := &Catalogue{
@@ -186,6 +186,9 @@ func BuildCatalogue() *Catalogue {
 		}
 		if nAcc > 0 {
 			add("accessors", t.Pkg+"."+t.Name)
+		}
+		if len(c.chainTargets(reflect.New(t.T))) > 0 {
+			add("chain", t.Pkg+"."+t.Name)
 		}
 	}
 	for _, n := range roundtripNames {
@@ -335,6 +338,7 @@ var secNames = []string{
 	"NASMac/0", "NASMac/1", "NASMac/2", "NASMac/3",
 	"NEA1", "NEA2", "NEA3", "NIA1", "NIA2", "NIA3", "snow3g", "zuc",
 	"protect/1", "protect/2", "protect/3",
+	"NASEncrypt/invalid", "NASMac/invalid",
 }
 
 var roundtripNames = []string{"qosrules", "qosflow", "pco", "uepolicy"}
@@ -721,6 +725,12 @@ func (c *Catalogue) Build(spec OpSpec, env *Env, task int) *Inst {
 			return c.missing(in)
 		}
 		c.buildAccessors(in, t, r)
+	case "chain":
+		t := c.Types[spec.Name]
+		if t == nil {
+			return c.missing(in)
+		}
+		c.buildChain(in, t, r)
 	case "roundtrip":
 		c.buildRoundtrip(in, r)
 	case "hist":
@@ -946,6 +956,35 @@ func (c *Catalogue) buildSec(in *Inst, r *Rng) {
 	in.Args = []interface{}{&key, &payload}
 	name := in.Spec.Name
 	switch {
+	case strings.HasSuffix(name, "/invalid"):
+		// the validation paths: unknown algorithm identity, bearer beyond 5 bits,
+		// direction beyond 1 bit, nil payload - what a forged or corrupted PDU triggers
+		alg := uint8(r.Intn(256))
+		switch r.Intn(4) {
+		case 0:
+			alg = uint8(4 + r.Intn(252))
+		case 1:
+			bearer = uint8(32 + r.Intn(224))
+		case 2:
+			dir = uint8(2 + r.Intn(254))
+		default:
+			if r.Bool() {
+				payload = nil
+			} else {
+				alg = uint8(4 + r.Intn(252))
+			}
+		}
+		if strings.HasPrefix(name, "NASEncrypt/") {
+			in.Do = func() []interface{} {
+				err := security.NASEncrypt(alg, key, count, bearer, dir, payload)
+				return []interface{}{err}
+			}
+		} else {
+			in.Do = func() []interface{} {
+				mac, err := security.NASMacCalculate(alg, key, count, bearer, dir, payload)
+				return []interface{}{mac, err}
+			}
+		}
 	case strings.HasPrefix(name, "NASEncrypt/"):
 		alg := uint8(name[len(name)-1] - '0')
 		in.Do = func() []interface{} {
@@ -1557,5 +1596,139 @@ func readerSweep(p reflect.Value, out *[]interface{}) {
 				*out = append(*out, rv.Interface())
 			}
 		}()
+	}
+}
+
+type chainTarget struct {
+	v       reflect.Value // pointer the methods are called on
+	path    string
+	methods []int // indices of the declared, synthesisable methods
+}
+
+func relPkg(t reflect.Type) string {
+	pkg := t.PkgPath()
+	return pkg[strings.LastIndex(pkg, "/")+1:]
+}
+
+// declaredMethods: methods declared on the element type of the pointer type pt
+// (not promoted ones) whose parameters can be synthesised.
+func declaredMethods(pt reflect.Type) []int {
+	et := pt.Elem()
+	if et.Name() == "" || !strings.Contains(et.PkgPath(), "free5gc/nas") {
+		return nil
+	}
+	var out []int
+	for m := 0; m < pt.NumMethod(); m++ {
+		mm := pt.Method(m)
+		params, declared := RegMethodParams[relPkg(et)+"."+et.Name()+"."+mm.Name]
+		if !declared {
+			continue
+		}
+		if _, ok := SynthArgs(NewRng(1), mm.Type, params, 1); !ok {
+			continue
+		}
+		out = append(out, m)
+	}
+	return out
+}
+
+// chainTargets: the receiver itself and its exported struct-typed fields that have
+// methods of their own (sublist.UpscGenerator, message.SecurityHeader, ...).
+func (c *Catalogue) chainTargets(recv reflect.Value) []chainTarget {
+	var out []chainTarget
+	if ms := declaredMethods(recv.Type()); len(ms) >= 2 {
+		out = append(out, chainTarget{recv, "", ms})
+	}
+	e := recv.Elem()
+	if e.Kind() != reflect.Struct {
+		return out
+	}
+	for i := 0; i < e.NumField(); i++ {
+		f := e.Type().Field(i)
+		if f.PkgPath != "" || f.Anonymous || f.Type.Kind() != reflect.Struct || !e.Field(i).CanAddr() {
+			continue
+		}
+		p := e.Field(i).Addr()
+		if ms := declaredMethods(p.Type()); len(ms) > 0 {
+			out = append(out, chainTarget{p, "." + f.Name, ms})
+		}
+	}
+	if len(out) == 1 && out[0].path == "" && len(out[0].methods) < 2 {
+		return nil
+	}
+	return out
+}
+
+// buildChain: a multi-step protocol on ONE value - several of its methods (any
+// kind: setters, encoders, decoders, allocators) and methods of its fields, one
+// after the other, each with fresh arguments.
+func (c *Catalogue) buildChain(in *Inst, t *RegType, r *Rng) {
+	recv := c.newReceiver(t.T, r)
+	if in.Spec.Var != 0 {
+		perturbArgs([]reflect.Value{recv}, NewRng(in.Spec.Var))
+	}
+	targets := c.chainTargets(recv)
+	if len(targets) == 0 {
+		return
+	}
+	type call struct {
+		m    reflect.Value
+		args []reflect.Value
+		name string
+	}
+	var calls []call
+	n := 3 + r.Intn(6)
+	isConfig := func(name string) bool {
+		for _, pre := range []string{"Set", "Add", "Append", "Init", "Reset", "With"} {
+			if strings.HasPrefix(name, pre) {
+				return true
+			}
+		}
+		return false
+	}
+	for k := 0; k < n; k++ {
+		// first half: configure the value (setters of the receiver); second half: use it
+		// (any method, preferably of a field that has methods of its own)
+		tg := targets[r.Intn(len(targets))]
+		if k < n/2 && targets[0].path == "" {
+			tg = targets[0]
+		} else if k >= n/2 && len(targets) > 1 && r.Chance(60) {
+			tg = targets[1+r.Intn(len(targets)-1)]
+		}
+		mi := tg.methods[r.Intn(len(tg.methods))]
+		for tries := 0; tries < 6; tries++ {
+			name := tg.v.Type().Method(mi).Name
+			if (k < n/2) == isConfig(name) || r.Chance(25) {
+				break
+			}
+			mi = tg.methods[r.Intn(len(tg.methods))]
+		}
+		mm := tg.v.Type().Method(mi)
+		et := tg.v.Type().Elem()
+		params := RegMethodParams[relPkg(et)+"."+et.Name()+"."+mm.Name]
+		args, ok := SynthArgs(r, mm.Type, params, 1, et.Name()+"."+mm.Name)
+		if !ok {
+			continue
+		}
+		calls = append(calls, call{tg.v.Method(mi), args, tg.path + "." + mm.Name})
+	}
+	in.Args = []interface{}{recv.Interface()}
+	in.Do = func() []interface{} {
+		var out []interface{}
+		for _, cl := range calls {
+			func() {
+				defer func() {
+					if p := recover(); p != nil {
+						if vsimrt.IsAbort(p) || vsimrt.IsRunaway(p) {
+							panic(p)
+						}
+						out = append(out, fmt.Sprint(cl.name, " panic:", p))
+					}
+				}()
+				out = append(out, ifaces(cl.m.Call(cl.args))...)
+				out = append(out, ifaces(cl.args)...)
+			}()
+		}
+		return out
 	}
 }
